@@ -448,12 +448,12 @@ func (s *state) walkIncludeNode(node *parse.IncludeNode) (tpl string, ctx map[st
 	if !node.Only {
 		ctx = s.scope.All()
 	}
-	if with != nil {
-		if with, ok := with.(map[string]Value); ok {
-			for k, v := range with {
-				ctx[k] = v
-			}
-		}
+	if with != nil && IsMap(with) {
+		// Any map is a hash, not only the map[string]Value a hash literal yields.
+		Iterate(with, func(k, v Value, l Loop) (bool, error) {
+			ctx[CoerceString(k)] = v
+			return false, nil
+		})
 	}
 	return tpl, ctx, err
 }
